@@ -120,6 +120,9 @@ pub struct View {
     pub ty: char,
     pub a: i64,
     pub off: i64,
+    /// second candidate (block ending exactly at the address), 0 if none
+    pub a2: i64,
+    pub off2: i64,
     pub len: usize,
     pub cap: usize,
     pub asz: usize,
@@ -162,15 +165,27 @@ impl Machine {
         }
     }
 
+    fn locate_alt(&self, addr: usize, a: i64) -> (i64, i64) {
+        if a <= 0 {
+            return (0, 0);
+        }
+        match la::locate_end(addr, a as u32) {
+            Some(l) => (l.id as i64, l.off as i64),
+            None => (0, 0),
+        }
+    }
+
     pub fn view(&self, id: usize) -> Option<View> {
         match self.hs.get(id)?.as_ref()? {
             H::B(b) => {
                 let (a, off, asz) = self.locate(b.as_ptr() as usize, b.len());
-                Some(View { ty: 'B', a, off, len: b.len(), cap: b.len(), asz, uniq: b.is_unique() })
+                let (a2, off2) = self.locate_alt(b.as_ptr() as usize, a);
+                Some(View { ty: 'B', a, off, a2, off2, len: b.len(), cap: b.len(), asz, uniq: b.is_unique() })
             }
             H::M(m) => {
                 let (a, off, asz) = self.locate(m.as_ptr() as usize, m.len());
-                Some(View { ty: 'M', a, off, len: m.len(), cap: m.capacity(), asz, uniq: false })
+                let (a2, off2) = self.locate_alt(m.as_ptr() as usize, a);
+                Some(View { ty: 'M', a, off, a2, off2, len: m.len(), cap: m.capacity(), asz, uniq: false })
             }
             H::V(v) => {
                 let (a, off, asz) = if v.capacity() == 0 {
@@ -178,7 +193,7 @@ impl Machine {
                 } else {
                     self.locate(v.as_ptr() as usize, v.len())
                 };
-                Some(View { ty: 'V', a, off, len: v.len(), cap: v.capacity(), asz, uniq: false })
+                Some(View { ty: 'V', a, off, a2: 0, off2: 0, len: v.len(), cap: v.capacity(), asz, uniq: false })
             }
         }
     }
@@ -255,11 +270,13 @@ impl Machine {
             first = false;
             let _ = write!(
                 s,
-                "{{\"h\":{},\"ty\":\"{}\",\"a\":{},\"off\":{},\"len\":{},\"cap\":{},\"u\":{},\"d\":",
+                "{{\"h\":{},\"ty\":\"{}\",\"a\":{},\"off\":{},\"a2\":{},\"off2\":{},\"len\":{},\"cap\":{},\"u\":{},\"d\":",
                 id,
                 v.ty,
                 v.a,
                 enc(v.off as usize),
+                v.a2,
+                v.off2,
                 enc(v.len),
                 enc(v.cap),
                 v.uniq
@@ -335,6 +352,10 @@ impl Machine {
     }
 
     pub fn reset(&mut self, pid: usize, par: u8) {
+        self.reset_p(pid, par, 0)
+    }
+
+    pub fn reset_p(&mut self, pid: usize, par: u8, placement: u8) {
         // drop anything left (outside any law), forget ledger
         self.hs.clear();
         self.hs.push(None);
@@ -347,7 +368,8 @@ impl Machine {
         self.fresh = 1;
         self.evno = 0;
         la::set_parity(par);
-        let _ = writeln!(self.out, "{{\"i\":0,\"op\":\"reset\",\"h\":0,\"pid\":{},\"par\":{}}}", pid, par);
+        la::set_placement(placement);
+        let _ = writeln!(self.out, "{{\"i\":0,\"op\":\"reset\",\"h\":0,\"pid\":{},\"par\":{},\"placement\":{}}}", pid, par, placement);
     }
 
     /// Execute one operation and append its event line.
@@ -871,6 +893,7 @@ fn main() {
     let mut start: usize = 0;
     let mut par_override: Option<u8> = None;
     let mut profile = String::from("mixed");
+    let mut adj_every: usize = 5;
     let mut i = 1;
     while i < args.len() {
         match args[i].as_str() {
@@ -911,6 +934,10 @@ fn main() {
                 par_override = Some(args[i + 1].parse().unwrap());
                 i += 1;
             }
+            "--adjacent-every" => {
+                adj_every = args[i + 1].parse().unwrap();
+                i += 1;
+            }
             "--profile" => {
                 profile = args[i + 1].clone();
                 i += 1;
@@ -932,8 +959,12 @@ fn main() {
     if random {
         for p in start..nprog {
             let par = par_override.unwrap_or((p % 2) as u8);
-            m.reset(p, par);
-            let mut g = gen::Gen::new(seed.wrapping_mul(0x9E3779B97F4A7C15) ^ (p as u64 + 1).wrapping_mul(0xD1B54A32D192ED03), maxh, maxlen, &profile);
+            // every 5th program runs under adjacent placement with an op mix biased towards
+            // buffers that touch each other (try_unsplit's pointer test, slice_ref's range test)
+            let adjacent = adj_every > 0 && p % adj_every == adj_every - 1;
+            m.reset_p(p, par, if adjacent { 1 } else { 0 });
+            let prof = if adjacent { "adjacent" } else { profile.as_str() };
+            let mut g = gen::Gen::new(seed.wrapping_mul(0x9E3779B97F4A7C15) ^ (p as u64 + 1).wrapping_mul(0xD1B54A32D192ED03), maxh, maxlen, prof);
             let mut done = 0;
             let mut tries = 0;
             while done < steps && tries < steps * 20 {
@@ -962,7 +993,7 @@ fn main() {
             };
             let par = par_override.unwrap_or(v["par"].as_u64().unwrap_or((pi % 2) as u64) as u8);
             let pid = v["pid"].as_u64().unwrap_or(pi as u64) as usize;
-            m.reset(pid, par);
+            m.reset_p(pid, par, v["placement"].as_u64().unwrap_or(0) as u8);
             if let Some(ops) = v["ops"].as_array() {
                 for o in ops {
                     let op = parse_op(o);
